@@ -392,6 +392,52 @@ def rule_literals(rep: Report, repo: Repo) -> None:
               '[\\x20-\\x5B\\x5D-\\x7E]|\\\\[' + re.escape(consts['escape_chars']) + ']|\\\\[xX][0-9a-fA-F]{2}',
               'C12.LITERALS', 'char regex', consts['char'][:80], PARSER,
               expected='printable except backslash | backslash + a table key | \\x + exactly two hex digits')
+    # the string token ends at the FIRST unescaped double quote: no alternative of its body may match a bare `"` (read off the regex
+    # syntax tree: the first element of every body alternative is a class / literal that excludes 0x22, or a backslash) - otherwise two
+    # literals on one line lex as one (`"a" + "b"`), and a quote inside a trailing comment is swallowed
+    import re._parser as _rp          # type: ignore[import-not-found]
+    def _first_sets(items: Any) -> List[Set[int]]:
+        out: List[Set[int]] = []
+        seq = list(items)
+        if not seq:
+            return [set()]
+        op, av = seq[0]
+        name = str(op)
+        if name == 'LITERAL':
+            return [{av}]
+        if name == 'IN':
+            cs: Set[int] = set()
+            neg = False
+            for o2, a2 in av:
+                if str(o2) == 'NEGATE':
+                    neg = True
+                elif str(o2) == 'LITERAL':
+                    cs.add(a2)
+                elif str(o2) == 'RANGE':
+                    cs |= set(range(a2[0], a2[1] + 1))
+                else:
+                    cs |= set(range(256))           # a category: treat as anything
+            return [set(range(256)) - cs if neg else cs]
+        if name == 'SUBPATTERN':
+            return _first_sets(av[3])
+        if name == 'BRANCH':
+            for alt in av[1]:
+                out += _first_sets(alt)
+            return out
+        return [set(range(256))]
+    str_ok, str_txt = False, 'not "(<alternatives>)*"'
+    try:
+        tree = list(_rp.parse(consts['string_re']))
+        if len(tree) == 3 and str(tree[0][0]) == 'LITERAL' and tree[0][1] == 0x22 and str(tree[2][0]) == 'LITERAL' and tree[2][1] == 0x22 \
+                and str(tree[1][0]) in ('MAX_REPEAT',) and tree[1][1][0] == 0:
+            firsts = _first_sets(tree[1][1][2])
+            bare = [sorted(f)[:3] for f in firsts if 0x22 in f]
+            str_ok = bool(firsts) and not bare
+            str_txt = f'{len(firsts)} body alternatives; ' + ('none starts with a bare double quote' if not bare else 'an alternative matches a bare double quote')
+    except Exception as ex:          # noqa: BLE001
+        str_txt = f'regex not parsed: {ex}'
+    rep.check(str_ok, 'C12.LITERALS', 'STRING token ends at the first unescaped quote', str_txt, PARSER,
+              expected='"( printable except \\ and " | escape )*"')
     num = repo.func(PARSER, 'FJLexer.NUMBER')
     # every path of NUMBER (forward substitution; branch order / nesting / negation do not matter): the conditions that hold on the
     # path select the decoder - a leading quote -> the char decoder, second char x/X -> base 16, b/B -> base 2, otherwise base 10
